@@ -57,6 +57,35 @@ def check_ports(ctx, aw, bind, plan, w):
 	return True
 
 
+def model_from_plan(ctx, bench, plan, w):
+	""" The shadow models' structure (who is whose child, who manages children, who owns a clock link)
+	    comes from the command line, not from the objects the application built. """
+	if len(plan) != len(bench.nodes):
+		ctx.violation("structure", dict(w, transceivers = [str(n.trx) for n in bench.nodes]),
+			what = "application built %d transceivers for %d definitions" % (len(bench.nodes), len(plan)))
+		return False
+	by_key = {}
+	for i, (name, addr, base, idx) in enumerate(plan):
+		t = bench.nodes[i].trx
+		if (t.remote_addr, t.base_port, t.child_idx) != (addr, base, idx) or (name is not None and t.name != name):
+			ctx.violation("structure", dict(w, index = i, got = [t.remote_addr, t.base_port, t.child_idx, t.name],
+				expected = [addr, base, idx, name]), what = "transceiver built with other address / base port / child index / name than defined")
+			return False
+		m = bench.models[i]
+		m.child_idx = idx
+		m.has_clock = idx == 0
+		m.child_mgt = not (i == 1)        # documented: the MS side does not manage children
+		m.children = []
+		by_key[(addr, base, idx)] = m
+	for (name, addr, base, idx) in plan:
+		if idx > 0:
+			parent = by_key.get((addr, base, 0))
+			if parent is None:
+				raise common.HarnessError("generator produced a child without parent")
+			parent.children.append(by_key[(addr, base, idx)])
+	return True
+
+
 class ClockModel:
 	def __init__(self):
 		self.running = False
@@ -82,6 +111,8 @@ def run_config(ctx, r, idx):
 		if not check_ports(ctx, aw, bind, plan, w):
 			return
 		bench = radio.Bench.from_app(aw)
+		if not model_from_plan(ctx, bench, plan, w):
+			return
 		_run(ctx, r, idx, aw, bench, w)
 	finally:
 		aw.shutdown()
